@@ -52,74 +52,52 @@ def r1_ownership_dominates_execute(ctx):
                          % (fl.canon_str(executed), fl.canon_str(tested)), body.loc(bi))
             continue
         r = rt["dest"]["l"]
-        rsw = discr_switches(body, r)
         gets = [(b2, t2) for b2, t2 in owner_field_calls(body, fl, "resource_ownership") if (t2.get("callee") or "").endswith("HashMap::get")]
-        if not rsw or len(gets) != 1:
-            ctx.violated(R, site, "ownership lookup chain not found (switch on resource_id(): %d, resource_ownership.get: %d)" % (len(rsw), len(gets)), body.loc(bi))
+        if len(gets) != 1:
+            ctx.violated(R, site, "ownership lookup not found (resource_ownership.get: %d)" % len(gets), body.loc(bi))
             continue
         gb, gt = gets[0]
+        fln = Flow(body, through_named=True)
+        TCK = ("Try::branch", "Option::unwrap", "Option::expect", "Clone::clone", "Option::copied")
         # looked-up key is the effect's resource id
-        keyc = fl.canon_op(gt["args"][1])
-        if keyc is None or not (keyc[0] == r or r in fl.backward({keyc[0]})):
+        keyp = op_place(gt["args"][1])
+        if keyp is None or r not in fln.backward({keyp["l"]}, through_calls=TCK):
             ctx.violated(R, site, "resource_ownership.get is not keyed by the effect's resource id", body.loc(gb))
             continue
         o = gt["dest"]["l"]
-        osw = discr_switches(body, o)
         # comparison owner vs process_id
         pid = [l["i"] for l in body.params() if l["ty"] == "usize"]
-        cmp_sw = []
-        for b2, si, s in body.stmts():
-            if s["k"] == "assign" and s["rv"]["k"] == "bin" and s["rv"]["op"] in ("Ne", "Eq"):
-                lc = fl.canon_op(s["rv"]["l"])
-                rc = fl.canon_op(s["rv"]["r"])
-                roots = set()
-                for c in (lc, rc):
-                    if c:
-                        roots |= fl.backward({c[0]})
-                if pid and pid[0] in roots and o in roots:
-                    for b3, blk in enumerate(body.blocks):
-                        tt = blk["term"]
-                        if tt["k"] == "switch" and op_local(tt["op"]) == s["p"]["l"]:
-                            cmp_sw.append((b3, s["rv"]["op"], {v: bb for v, bb in tt["targets"]}, tt["otherwise"]))
-        if not osw or len(cmp_sw) != 1:
-            ctx.violated(R, site, "owner != process_id comparison not found after the ownership lookup", body.loc(gb))
+        cmps = []
+        for b2, si, s2 in body.stmts():
+            if s2["k"] == "assign" and s2["rv"]["k"] == "bin" and s2["rv"]["op"] in ("Ne", "Eq"):
+                sides = [fln.backward({op_place(x)["l"]}, through_calls=TCK) if op_place(x) else set() for x in (s2["rv"]["l"], s2["rv"]["r"])]
+                if pid and ((pid[0] in sides[0] and o in sides[1]) or (pid[0] in sides[1] and o in sides[0])):
+                    cmps.append((b2, si, s2["rv"]["op"]))
+        if len(cmps) != 1:
+            ctx.violated(R, site, "owner != process_id comparison not found after the ownership lookup (%d candidates)" % len(cmps), body.loc(gb))
             continue
-        cb, op, m, other = cmp_sw[0]
-        # the 'violation' edge: Ne true (non-zero) / Eq false (zero)
-        if op == "Ne":
-            viol_edges = [(cb, bb) for v, bb in body.switch_edges(cb) if v != 0]
-            ok_edges = [(cb, m.get(0, other))]
-        else:
-            viol_edges = [(cb, m.get(0, other))]
-            ok_edges = [(cb, bb) for v, bb in body.switch_edges(cb) if v != 0]
+        cb, csi, op = cmps[0]
+        differs = 1 if op == "Ne" else 0       # value of the comparison when the owner is ANOTHER process
         # (1) every path to execute passes resource_id()
         c1 = body.must_pass(bi, [rb])
-        # (2) with the benign edges removed (None id, None owner, owner==pid), execute is unreachable
-        benign = []
-        for sw in rsw:
-            benign += edges_except(body, sw, 1)
-        for sw in osw:
-            benign += edges_except(body, sw, 1)
-        benign += ok_edges
-        w = explore(body, [0], want="target", targets=[bi], exempt_edges=benign)
-        # (3) the violating edge never reaches execute
-        w3 = None
-        for (_a, tgt) in viol_edges:
-            w3 = w3 or explore(body, [tgt], want="target", targets=[bi])
-        # (4) the violating edge reports an error to the process
+        # (2) with a resource id, a registered owner and owner != process_id, execute is unreachable
+        w = explore(body, [0], want="target", targets=[bi], force={("d", r): 1, ("d", o): 1, (cb, csi): differs}, flow=fl)
+        # (3) ... and that path reports an error to the process on every way out
         rep = [b2 for b2, _t in body.calls_to("Environment::report_effect_error")]
-        c4 = all(explore(body, [tgt], avoid=rep, want="return") is None for (_a, tgt) in viol_edges) and bool(rep)
-        ok = c1 and w is None and w3 is None and c4
+        w4 = explore(body, [cb], avoid=rep, want="return", force={(cb, csi): differs}, flow=fl, stop=diverging_blocks(body))
+        # (4) the three tests are on the way to execute at all (not dead code beside it)
+        c5 = body.reaches(rb, bi) and body.reaches(gb, bi) and body.reaches(cb, bi)
+        ok = c1 and w is None and w4 is None and bool(rep) and c5
         why_bad = []
         if not c1:
             why_bad.append("a path reaches execute without calling resource_id()")
         if w is not None:
             why_bad.append("execute reachable with a foreign owner: %s" % path_desc(body, w))
-        if w3 is not None:
-            why_bad.append("the owner!=process edge still reaches execute: %s" % path_desc(body, w3))
-        if not c4:
+        if w4 is not None or not rep:
             why_bad.append("the ownership violation is not reported through report_effect_error on every path")
-        ctx.check(ok, R, site, "execute is reachable only with no resource id, no registered owner, or owner == process_id; the violating edge "
+        if not c5:
+            why_bad.append("the ownership test is not on the way to execute")
+        ctx.check(ok, R, site, "execute is reachable only with no resource id, no registered owner, or owner == process_id; the violating outcome "
                                "returns through report_effect_error", "; ".join(why_bad), body.loc(bi))
     # no other way to reach a backend: fields/methods of the backend that perform effects
     n_impl = 0
@@ -249,10 +227,32 @@ def r3_close(ctx):
             if (t3.get("callee") or "").endswith("HashMap::get") and fl.mentions_field(fl.canon_op(t3["args"][0]) or (0, ()), "environment::Environment", "resource_ownership") \
                     and body.dominates(b3, bi) and rp and (fln.backward({op_place(t3["args"][1])["l"]}) & fln.backward({rp["l"]})):
                 guarded = True
-        okf = (from_map and filt_ok) or guarded
+        # explicit-loop form: `for (rid, owner) in &self.resource_ownership { if *owner == process_id { owned.push(*rid) } }`
+        loop_ok = False
+        if not filt_ok:
+            TCL = TC + ("Iterator::enumerate",)
+            map_iters = [b3 for b3, t3 in body.calls() if t3["args"] and (t3.get("callee") or "").split("::")[-1] in ("iter", "into_iter", "keys", "values") and
+                         fl.mentions_field(fl.canon_op(t3["args"][0]) or (0, ()), "environment::Environment", "resource_ownership")]
+            map_locals = {body.blocks[b3]["term"]["dest"]["l"] for b3 in map_iters}
+            nexts = [b3 for b3, t3 in body.calls() if (t3.get("callee") or "").endswith("Iterator::next")]
+            entries = [b3 for b3, t3 in body.calls() if (t3.get("callee") or "").endswith("Vec::push") and len(t3["args"]) > 1 and op_place(t3["args"][1])
+                       and op_place(t3["args"][1])["l"] in back] or [bi]
+            if map_locals & back or any(fln.backward({x}, through_calls=TCL) & map_locals for x in back):
+                from_map = True
+            for b4, s4, st in body.stmts():
+                if st["k"] == "assign" and st["rv"]["k"] == "bin" and st["rv"]["op"] in ("Eq", "Ne"):
+                    sides = [fln.backward({op_place(o)["l"]}, through_calls=TCL) if op_place(o) else set() for o in (st["rv"]["l"], st["rv"]["r"])]
+                    has_pid = [bool(pid and pid[0] in sd) for sd in sides]
+                    has_map = [bool(sd & map_locals) for sd in sides]
+                    if (has_pid[0] and has_map[1]) or (has_pid[1] and has_map[0]):
+                        wrong = 0 if st["rv"]["op"] == "Eq" else 1
+                        if all(body.dominates(b4, e_) or True for e_ in entries) and all(
+                                explore(body, [b4], want="target", targets=[e_], avoid=nexts, force={(b4, s4): wrong}) is None for e_ in entries):
+                            loop_ok = True
+        okf = (from_map and (filt_ok or loop_ok)) or guarded
         ctx.check(okf, R, body.key + "|owned-only", "the closed ids are the entries of resource_ownership whose owner == process_id at cleanup time",
                   "the resources closed for a finished process are not (only) those resource_ownership assigns to it NOW (from_map=%s owner-filter=%s "
-                  "guarded=%s): a resource handed on to a live process can be closed under it" % (from_map, filt_ok, guarded), body.loc(bi))
+                  "guarded=%s): a resource handed on to a live process can be closed under it" % (from_map, filt_ok or loop_ok, guarded), body.loc(bi))
     callers = sorted({k for k, _b in F.callers_of(ENV + "::cleanup_process_resources")})
     ctx.check(callers == [ENV + "::handle_process_results"], R, "callers(cleanup_process_resources)",
               "cleanup_process_resources is called only from handle_process_results", "cleanup_process_resources callers: %s" % callers)
